@@ -221,17 +221,24 @@ func (q *Queue[T]) unsafeWaitWhileEmpty(ctx context.Context) error {
 	return nil
 }
 
+// waitForNew blocks until an item is added after the current newest
+// entry, the queue is closed, or the context is canceled.
 func (q *Queue[T]) waitForNew(ctx context.Context) error {
 	q.mu.Lock()
 	defer q.mu.Unlock()
 
+	return q.unsafeWaitForLink(ctx, q.back)
+}
+
+// caller must hold the lock: blocks until the entry has a successor,
+// the queue is closed, or the context is canceled.
+func (q *Queue[T]) unsafeWaitForLink(ctx context.Context, e *entry[T]) error {
 	// when the function returns wake all other waiters.
 	ctx, cancel := context.WithCancel(ctx)
 	go func() { <-ctx.Done(); q.mu.Lock(); defer q.mu.Unlock(); q.nupdates.Broadcast() }()
 	defer cancel()
 
-	head := q.back
-	for head == q.back && q.back.link != q.front {
+	for e.link == nil {
 		if q.closed {
 			return ErrQueueClosed
 		}
@@ -359,40 +366,28 @@ func (q *Queue[T]) Distributor() Distributor[T] {
 func (q *Queue[T]) Producer() fun.Producer[T] {
 	var next *entry[T]
 	return func(ctx context.Context) (o T, _ error) {
+		q.mu.Lock()
+		defer q.mu.Unlock()
+
 		if next == nil {
-			q.mu.Lock()
 			next = q.front
-			q.mu.Unlock()
 		}
 
-		q.mu.Lock()
 		if next.link == q.front {
-			q.mu.Unlock()
 			return o, io.EOF
 		}
 
-		if next.link != nil {
-			next = next.link
-			q.mu.Unlock()
-		} else if next.link == nil {
-			if q.closed {
-				q.mu.Unlock()
-				return o, io.EOF
-			}
-
-			q.mu.Unlock()
-			verifAt("pubsub.Queue.Producer.unlocked")
-			if err := q.waitForNew(ctx); err != nil {
+		// wait, holding the lock, until the current entry has a
+		// successor: checking and waiting in one critical section
+		// means that an Add cannot be missed, and the iterator
+		// never follows a nil link.
+		if next.link == nil {
+			if err := q.unsafeWaitForLink(ctx, next); err != nil {
 				return o, err
 			}
-
-			q.mu.Lock()
-			if next.link != q.front {
-				next = next.link
-			}
-			q.mu.Unlock()
 		}
 
+		next = next.link
 		return next.item, nil
 	}
 }
